@@ -640,6 +640,8 @@ func (c *Collection) writeWithXattrs(
 		if exp != nil {
 			e.exp = absoluteExpiry(*exp)
 		}
+		// A document without a body is a tombstone, also when only its xattrs were written.
+		e.isDeletion = (e.value == nil)
 
 		err = c.storeDocument(txn, e)
 		if err != nil {
